@@ -476,6 +476,69 @@ func c04(c *h.Ctx) {
 		c.Case("untracked-responses", inS, true)
 	}
 
+	// a long session: thousands of requests on one connection, the peer answering through ONE long-lived writer that has
+	// announced a small chunk size (so the command chunk stream carries far more than 2^16 chunks, with compressed headers
+	// and continuation chunks), responses arriving in windows of up to five outstanding requests in rotating orders
+	for _, peerChunk := range []uint32{1, 7, 128} {
+		in := &bytes.Buffer{}
+		p := rtmp.NewProtocol(&h.RW{Reader: in, Writer: &bytes.Buffer{}})
+		peer := rtmp.NewProtocol(&h.RW{Writer: in})
+		sc := rtmp.NewSetChunkSize()
+		sc.ChunkSize = peerChunk
+		peer.WritePacket(sc, 0)
+		if m, err := p.ReadMessage(); err != nil || m.MessageType != rtmp.MessageTypeSetChunkSize {
+			c.Hold(false, "no_spurious_failure", fmt.Sprintf("long session, peer chunk size %d: reading the Set Chunk Size", peerChunk), fmt.Sprint(err), "read")
+			continue
+		}
+		total := c.N(2600, 9000)
+		if peerChunk != 1 {
+			total = c.N(600, 12000)
+		}
+		nok, bad := 0, ""
+		tid := 2.0
+		for done := 0; done < total && bad == ""; {
+			w := 1 + (done/7)%5
+			var tids []float64
+			for k := 0; k < w; k++ {
+				pk := rtmp.NewCreateStreamPacket()
+				pk.TransactionID = amf0.Number(tid)
+				if err := p.WritePacket(pk, 0); err != nil {
+					bad = fmt.Sprintf("request %v: write: %v", tid, err)
+				}
+				tids = append(tids, tid)
+				tid++
+			}
+			// answer in a rotated order
+			rot := done % w
+			for k := 0; k < w && bad == ""; k++ {
+				t := tids[(k+rot)%w]
+				res := rtmp.NewCreateStreamResPacket(amf0.Number(t))
+				res.StreamID = amf0.Number(float64(done + k))
+				peer.WritePacket(res, 0)
+				m, err := p.ReadMessage()
+				if err != nil {
+					bad = fmt.Sprintf("response to %v (request #%d of the session): read: %v", t, done+k, h.Trunc(err.Error(), 200))
+					break
+				}
+				pkt, err := p.DecodeMessage(m)
+				if err != nil {
+					bad = fmt.Sprintf("response to %v (request #%d of the session): decode: %v", t, done+k, h.Trunc(err.Error(), 200))
+					break
+				}
+				r, ok := pkt.(*rtmp.CreateStreamResPacket)
+				if !ok || float64(r.TransactionID) != t || float64(r.StreamID) != float64(done+k) {
+					bad = fmt.Sprintf("response to %v (request #%d of the session): decoded as %T", t, done+k, pkt)
+					break
+				}
+				nok++
+			}
+			done += w
+		}
+		id := fmt.Sprintf("long session: %d createStream requests on one connection, windows of 1..5 outstanding answered in rotating order, peer chunk size %d", total, peerChunk)
+		c.Hold(bad == "", "none_lost", id, fmt.Sprintf("matched=%d; %s", nok, bad), "every response matched to its request")
+		c.Case(fmt.Sprintf("long-session/chunk=%d", peerChunk), id, true)
+	}
+
 	// free-running goroutines (support for the runtime part; under -race in the thorough tier)
 	rounds := c.N(20, 400)
 	for round := 0; round < rounds; round++ {
